@@ -9,6 +9,7 @@ import (
 	"runtime"
 	"sort"
 	"strings"
+	"sync"
 	"unsafe"
 )
 
@@ -109,6 +110,49 @@ func (d *Dumper) skip(t reflect.Type) bool {
 	return false
 }
 
+// loadable dumps sync.Map and sync/atomic values through their methods; false if v is not one of them.
+func (d *Dumper) loadable(v reflect.Value, depth int) bool {
+	if !v.CanAddr() {
+		cp := reflect.New(v.Type()).Elem()
+		cp.Set(v)
+		v = cp
+	}
+	pv := v.Addr()
+	if !pv.CanInterface() {
+		pv = reflect.NewAt(v.Type(), unsafe.Pointer(v.UnsafeAddr()))
+	}
+	if m, ok := pv.Interface().(*sync.Map); ok {
+		type ent struct{ k, v string }
+		var ents []ent
+		m.Range(func(k, val any) bool {
+			kd := &Dumper{ptrs: d.ptrs, names: d.names, SkipTypes: d.SkipTypes, RenameIDs: d.RenameIDs}
+			kd.value(reflect.ValueOf(k), depth+1)
+			vd := &Dumper{ptrs: d.ptrs, names: d.names, SkipTypes: d.SkipTypes, RenameIDs: d.RenameIDs}
+			vd.value(reflect.ValueOf(val), depth+1)
+			ents = append(ents, ent{kd.sb.String(), vd.sb.String()})
+			return true
+		})
+		sort.Slice(ents, func(i, j int) bool { return ents[i].k < ents[j].k })
+		d.sb.WriteString("syncmap{")
+		for i, e := range ents {
+			if i > 0 {
+				d.sb.WriteByte(',')
+			}
+			d.sb.WriteString(e.k + ":" + e.v)
+		}
+		d.sb.WriteByte('}')
+		return true
+	}
+	load := pv.MethodByName("Load")
+	if !load.IsValid() || load.Type().NumIn() != 0 || load.Type().NumOut() != 1 {
+		return false
+	}
+	d.sb.WriteString("atomic(")
+	d.value(load.Call(nil)[0], depth+1)
+	d.sb.WriteByte(')')
+	return true
+}
+
 func (d *Dumper) value(v reflect.Value, depth int) {
 	if !v.IsValid() {
 		d.sb.WriteString("nil")
@@ -119,6 +163,13 @@ func (d *Dumper) value(v reflect.Value, depth int) {
 		return
 	}
 	t := v.Type()
+	if t.PkgPath() == "sync" && t.Name() == "Map" || t.PkgPath() == "sync/atomic" {
+		// containers whose contents are state (a cache in a sync.Map, a value behind an atomic pointer):
+		// read them through their own Load / Range instead of treating them as opaque
+		if d.loadable(v, depth) {
+			return
+		}
+	}
 	if d.skip(t) {
 		d.sb.WriteString("_")
 		return
@@ -258,7 +309,8 @@ func (d *Dumper) value(v reflect.Value, depth int) {
 		for i := 0; i < v.NumField(); i++ {
 			f := v.Field(i)
 			ft := t.Field(i)
-			if d.skip(ft.Type) || ft.Type.Kind() == reflect.Func || ft.Type.Kind() == reflect.Chan {
+			stateful := ft.Type.PkgPath() == "sync" && ft.Type.Name() == "Map" || ft.Type.PkgPath() == "sync/atomic"
+			if !stateful && (d.skip(ft.Type) || ft.Type.Kind() == reflect.Func || ft.Type.Kind() == reflect.Chan) {
 				continue
 			}
 			if !f.CanInterface() {
